@@ -224,6 +224,14 @@ func c19Check(rep *vh.Report, doc c19Doc, expect map[string]string, what string)
 		rep.Violate("", what+": json.Marshal of the parsed configuration failed: "+err.Error(), doc)
 		return
 	}
+	// encoding is a read-only operation: the configuration in memory means the same afterwards
+	effAfter := c19Effective(conf)
+	for i := range eff {
+		if i >= len(effAfter) || eff[i] != effAfter[i] {
+			rep.Violate("", fmt.Sprintf("%s (%s): json.Marshal changed the configuration in memory: %s became %s\n%s", what, doc.Format, eff[i], effAfter[i], text), doc)
+			return
+		}
+	}
 	conf2 := &ClientConf{}
 	if err := json.Unmarshal(b, conf2); err != nil {
 		rep.Violate("", fmt.Sprintf("%s: the re-encoded configuration does not parse: %v\n%s", what, err, b), doc)
